@@ -136,6 +136,11 @@ func (r *timeoutDelimitedReader) readDelimitedMessageRaw() ([]byte, error) {
 
 func (r *timeoutDelimitedReader) read(numBytes int) ([]byte, error) {
 	data := make([]byte, numBytes)
+	if numBytes == 0 {
+		// Nothing to read. A zero-length read could block (e.g. a synchronous
+		// pipe waits for the peer's next write), so don't even try.
+		return data, nil
+	}
 	var offs int
 	for {
 		numRead, err := r.in.Read(data[offs:])
